@@ -152,6 +152,19 @@ def run(ctx):
             if len(body) < 128:
                 inputs.append(('str', bytes([tg, len(body)]) + body, sd))
             inputs.append(('str', bytes([tg, 0x80]) + body + b'\x00\x00', sd))
+    # segments whose octets are not text of the string type's repertoire / encoding (the refusal is raised where the
+    # assembled segments meet the type, not where a primitive string does): every character and time type, one to three
+    # segments, the offending octets first / last / split across two segments, definite and indefinite
+    BADTXT = [b'\xff\xfe', b'\xc3', b'\xed\xa0\x80', b'\x80', b'\xd8\x00', b'\x00\x11\x00\x00', b'A\xe9', b'\xf4\x90\x80\x80']
+    ALLSTR = {0x2c: 'UTF8String', 0x32: 'NumericString', 0x33: 'PrintableString', 0x36: 'IA5String', 0x3a: 'VisibleString', 0x3e: 'BMPString',
+              0x3c: 'UniversalString', 0x39: 'GraphicString', 0x3b: 'GeneralString', 0x38: 'GeneralizedTime', 0x37: 'UTCTime', 0x27: 'ObjectDescriptor'}
+    for tg, nm in ALLSTR.items():
+        for bad in BADTXT:
+            seg = lambda x: bytes([4, len(x)]) + x
+            for body in (seg(bad), seg(b'AB') + seg(bad), seg(bad) + seg(b'AB'), seg(bad[:1]) + seg(bad[1:]), seg(b'') + seg(bad) + seg(b'')):
+                inputs.append(('str', bytes([tg, len(body)]) + body, ('str', nm)))
+                inputs.append(('str', bytes([tg, 0x80]) + body + b'\x00\x00', ('str', nm)))
+                inputs.append(('str', bytes([0xa5, len(body) + 2, tg, len(body)]) + body, ('exp', (128, 0, 5), ('str', nm))))
     # REAL in character form (ISO 6093 NR1-3): text the number parser of the host language may accept beyond the standard's syntax
     TEXTS = [b'1', b'-1', b'+1', b'1.', b'1.5', b'.5', b'1e5', b'1E-5', b'1.e', b'e5', b'', b' 1', b'1 ', b'1\n', b'1_2', b'0x10', b'nan', b'NaN',
              b'-nan', b'inf', b'-inf', b'Infinity', b'1e999', b'-1e999', b'1e-999', b'1,5', b'--1', b'1e', b'\xd9\xa1', b'\x00', b'1\x00',
